@@ -211,7 +211,7 @@ fn primary_cases() -> Vec<Base> {
     for s in ["", " ", "a b", "!,.;", "é", "a\nb", "it's (not) a comment"] {
         v.push(say_case(pe(string(s))));
     }
-    for p in [name_simple("x"), name_simple("Zed"), name_common("the", "zed"), name_common("my", "Zed"), name_common("A", "yod"), name_proper(&["Zed", "Yod"]), name_proper(&["Zed", "Yod", "Qux"])] {
+    for p in [name_simple("x"), name_simple("Zed"), name_common("the", "zed"), name_common("my", "Zed"), name_common("A", "yod"), name_proper(&["Zed", "Yod"]), name_proper(&["Zed", "Yod", "Qux"]), name_proper(&["Zed", "Élan"]), name_proper(&["Ångström", "Über", "Yod"])] {
         v.push(say_case(pe(p.clone())));
         v.push(say_case(pe(sub(p.clone(), num("0")))));
         v.push(say_case(pe(sub(name_simple("x"), p))));
